@@ -167,6 +167,33 @@ pub fn oracle(scn: &SenderScn, ctx: &Ctx, trace: &SenderTrace) {
             }
             st
         };
+        // 0. a waiting carousel object triggered AT A TIME goes out at the first poll after that time (un-paced workloads:
+        // a poll that ends with 'nothing to send' leaves no slot busy)
+        if o.carousel.is_some() && scn.objects.iter().all(|x| x.target.is_none()) {
+            let trig: Vec<&OpRec> = trace.ops.iter().filter(|r| matches!(r.op, Op::Trigger { obj, .. } if obj == i)).collect();
+            if let [r] = trig.as_slice() {
+                if let (Op::Trigger { at_us: Some(u), .. }, true) = (&r.op, r.result == OpResult::Triggered(true)) {
+                    let in_flight = mine.iter().any(|t| t.start_seq < r.seq && t.stop_seq.map(|s| s > r.seq).unwrap_or(true));
+                    let sent_before = mine.iter().any(|t| t.stop_seq.map(|s| s < r.seq).unwrap_or(false));
+                    let gone = removal_seq(trace, i).unwrap_or(u64::MAX);
+                    if !in_flight && sent_before {
+                        let due = t0_us() + u;
+                        if let Some((pi, p)) = trace.polls.iter().enumerate().find(|(_, p)| p.seq_begin > r.seq && p.t_us > due + 1000 && p.drained) {
+                            let end_seq = trace.polls.get(pi + 1).map(|n| n.seq_begin).unwrap_or(u64::MAX);
+                            let started = mine.iter().any(|t| t.start_seq > r.seq && t.start_seq < end_seq);
+                            if !started && end_seq < gone && end_seq != u64::MAX {
+                                violate(
+                                    ctx,
+                                    "C14/triggered-transfer-late",
+                                    "-",
+                                    format!("toi={}: waiting between two carousel transfers it was triggered for +{} us, yet the poll at +{} us (which ends with 'nothing to send') did not start it", toi, u, p.t_us.saturating_sub(t0_us())),
+                                );
+                            }
+                        }
+                    }
+                }
+            }
+        }
         for t in &mine {
             // 1. not before the start time
             if let Some(st) = start_at(t.start_seq) {
